@@ -80,7 +80,7 @@ def floors(tier):
         return {"cache_hits": 1000000, "first_hit_recomputations": 20000, "twin_collisions": 2000, "injected_perturbations": 2000,
                 "histories_compared": 5000, "suite_files_run": 80}
     return {"cache_hits": 20000, "first_hit_recomputations": 1500, "twin_collisions": 100, "injected_perturbations": 100,
-            "histories_compared": 400}
+            "histories_compared": 400, "inplace_update_repeats": 200}
 
 
 # ------------------------------------------------------------------ twin scenarios
@@ -173,11 +173,63 @@ def _path_epilogue(prog, cfg):
     return out
 
 
+def _inplace_epilogue(prog, cfg):
+    """An operation repeated on the SAME objects after one operand was updated in place through the public API
+    (a[key] = block on the tensor or on the tensor its lazy transpose was taken from): the second result may depend only
+    on what the operands hold at that moment.  The reference is the same operation on operands rebuilt block by block."""
+    import yastn
+    out = []
+
+    def rebuild(x):
+        y = yastn.Tensor(config=x.config, s=x.get_signature(), n=x.n, isdiag=x.isdiag, dtype=x.yastn_dtype)
+        lg = x.get_legs()
+        for key in _logical_keys(x):
+            blk = np.array(x[key], copy=True)
+            y.set_block(ts=key, Ds=blk.shape if not x.isdiag else blk.shape[0], val=blk)
+        return y
+
+    def _logical_keys(x):
+        ns = x.config.sym.NSYM
+        tr = x.trans
+        keys = []
+        for t in x.struct.t:
+            native = [t[i * ns:(i + 1) * ns] for i in range(len(t) // ns)]
+            keys.append(tuple(c for ax in tr for c in native[ax]) if len(tr) == len(native) else t)
+        return keys
+
+    for h in prog.init[:2]:
+        if h.rank < 2 or not h.blocks:
+            continue
+        a = h.to_yastn(cfg)
+        perm = tuple(range(1, h.rank)) + (0,)
+        t = a.transpose(perm)                                  # lazy view of a
+        c = h.permute(perm).map_values(lambda v: v * 0.5 + 0.25, h.dtype).to_yastn(cfg)        # same legs as t, plain state
+        ops = (lambda: yastn.vdot(c, t), lambda: yastn.vdot(t, c), lambda: c + t, lambda: (t - c).norm(),
+               lambda: yastn.tensordot(c, t, axes=(tuple(range(h.rank)), tuple(range(h.rank))), conj=(1, 0)), lambda: t.norm())
+        first = [f() for f in ops]
+        out.extend(raw(x) for x in first)
+        for target in (t, a):
+            key = _logical_keys(target)[0]
+            blk = np.array(target[key], copy=True)
+            target[key] = blk * -3.0 + 1.0                       # public in-place update
+            again = [f() for f in ops]
+            c2, t2 = rebuild(c), rebuild(t)
+            ref = [yastn.vdot(c2, t2), yastn.vdot(t2, c2), c2 + t2, (t2 - c2).norm(),
+                   yastn.tensordot(c2, t2, axes=(tuple(range(h.rank)), tuple(range(h.rank))), conj=(1, 0)), t2.norm()]
+            same = all(np.allclose(np.asarray(x.to_numpy() if isinstance(x, yastn.Tensor) else x),
+                                   np.asarray(y.to_numpy() if isinstance(y, yastn.Tensor) else y), rtol=1e-12, atol=1e-12)
+                       for x, y in zip(again, ref))
+            out.append(("I", same))
+            out.extend(raw(x) for x in again)
+    return out
+
+
 def _run(prog, cfg, perturb_fusion=False):
     pool, _ = GP.execute(prog, cfg, observe_steps=False)
     out = [raw(x) for x in pool]
     out += _mask_epilogue(prog, cfg)
     out += _path_epilogue(prog, cfg)
+    out += _inplace_epilogue(prog, cfg)
     if perturb_fusion:
         # fusion-history twins: same struct/slices, history dropped -> must not poison entries of the original
         import yastn
@@ -409,6 +461,14 @@ def twin_case(ctx, idx):
             if x[0] == "W" and not x[1]:
                 ctx.violation("argument-state-dependence:moved-SlicedLeg",
                               "contract_with_unroll gave different results for a SlicedLeg moved in place and a fresh SlicedLeg of equal content")
+                break
+        for hname, hres in [("reference", ref)] + list(histories.items()):
+            if any(x[0] == "I" for x in hres):
+                ctx.count("inplace_update_repeats", sum(1 for x in hres if x[0] == "I"))
+            if any(x[0] == "I" and not x[1] for x in hres):
+                ctx.violation("argument-state-dependence:operand-updated-in-place",
+                              f"an operation repeated after a public in-place update (a[key] = block) of an operand or of the tensor its lazy "
+                              f"transpose views did not reflect the update (history {hname}); reference: the same operation on operands rebuilt block by block")
                 break
         for name, res in histories.items():
             ctx.count("histories_compared")
